@@ -38,7 +38,8 @@ UNITS = {
                        'round-trip with their metadata is decided by the bounded stand-in.',
     },
     'C20': {
-        'functions': ['penman.__main__:_process_in', 'penman.__main__:_process_out', 'penman.__main__:_check'],
+        'functions': ['penman.__main__:_process_in', 'penman.__main__:_process_out', 'penman.__main__:_check',
+                      'penman.__main__:_make_sort_key'],
         'lemmas': [],
         'level': 'other',
         'explanation': 'Proved (library stages as opaque functions of their arguments): _process_in applies canonicalise, '
@@ -116,7 +117,8 @@ UNITS = {
     },
     'C05': {
         'functions': ['penman.model:Model.original_order', 'penman.model:Model.alphanumeric_order',
-                      'penman.model:Model.canonical_order', 'penman.model:Model.is_role_inverted'],
+                      'penman.model:Model.canonical_order', 'penman.model:Model.is_role_inverted',
+                      'penman.__main__:_make_sort_key'],
         'lemmas': [],
         'level': 'other',
         'explanation': 'Proved for every model: the role sort keys -- original_order is constant (a stable sort keeps '
@@ -138,7 +140,8 @@ UNITS = {
                       'penman.graph:Graph.attributes', 'penman.graph:Graph._filter_triples', 'penman.graph:Graph.top',
                       'penman.transform:_reified_markers', 'penman.transform:_edge_markers',
                       'penman.transform:_attr_markers', 'penman.model:Model.reify', 'penman.model:Model.dereify',
-                      'penman.tree:_map_vars'],
+                      'penman.tree:_map_vars',
+                      'penman.model:Model.__init__'],
         'lemmas': [],
         'level': 'other',
         'explanation': 'Proved (ownership obligations over the real AST): none of the listed functions mutates an '
@@ -214,7 +217,8 @@ UNITS = {
     'C11': {
         'functions': ['penman.model:Model.is_role_reifiable', 'penman.model:Model.is_concept_dereifiable',
                       'penman.model:Model.reify', 'penman.model:Model.dereify',
-                      'penman.transform:_reified_markers', 'penman.transform:_edge_markers'],
+                      'penman.transform:_reified_markers', 'penman.transform:_edge_markers',
+                      'penman.model:Model.__init__'],
         'lemmas': [],
         'level': 'other',
         'explanation': 'Proved for every model: Model.reify returns the three triples around a node variable that is '
